@@ -2624,7 +2624,7 @@ PROPS = {
     "C10": dict(modules=["C10"], run=make_compile_run(proj_pickle_types, extra_C10), exhaustive=True,
                 rule="all keyword-type sequences ≤ L over 5 types × background split × {plain, outline} as real text; synthetic ASTs; non-trivial = at least one pickle"),
     "C11": dict(modules=["C11", "C11Builder", "C11Tree", "C03Parse", "C11Pipeline"], run=make_compile_run(proj_pickle_ids, extra_C11), rule=GEN_RULE + "plus sequences of sources through one stream; non-trivial = ids were drawn"),
-    "C12": dict(modules=["C12", "C12Doc"], run=run_C12, translators=["parser_table"], exhaustive=True,
+    "C12": dict(modules=["C12", "C12Doc", "C14ErrorsDoc"], run=run_C12, translators=["parser_table"], exhaustive=True,
                 rule="every row string ≤ L over {|, \\, n, space, tab, other} plus Unicode rows; generated ragged/rectangular tables; non-trivial = at least one cell"),
     "C13": dict(modules=["C13", "C03Doc"], run=run_C13, translators=["parser_table"], rule="doc strings with content lines from every Gherkin-looking kind, both delimiters, all indentation relations; matcher in the content state; non-trivial = accepted"),
     "C14": dict(modules=["C14", "C14Stop", "C14Recover", "C14Recover2", "C14ErrorsDoc"], run=run_C14, translators=["parser_table"], exhaustive=True,
